@@ -182,6 +182,66 @@ def verify_default(fn: ast.FunctionDef) -> bool:
     raise Unsupported("_resolve_verify_checksums: default lookup not recognised")
 
 
+def entry_checksum(fn: ast.FunctionDef) -> Tuple[str, str]:
+    """FileManager.create_manifest_file: what is written into an entry's "checksum" field, per entry status.
+
+    Returns (term for ADDED entries, term for EXISTING entries) over the variable c = df.checksum.
+    Accepted shapes: the field is `df.checksum` itself, or a local name assigned in both branches of
+    `if status == ENTRY_STATUS_ADDED: ... else: ...` to `df.checksum` or to the constant None.
+    The entry order ([ADDED for data_files] + [EXISTING for existing_files]) is checked as well."""
+    loop = None
+    for node in ast.walk(fn):
+        if isinstance(node, ast.For) and isinstance(node.target, ast.Tuple) and [getattr(e, "id", None) for e in node.target.elts] == ["df", "status"]:
+            loop = node
+    if loop is None:
+        raise Unsupported("create_manifest_file: `for df, status in ...` loop not found")
+    want_iter = ("BinOp(ListComp(Tuple([Name('f', Load()), Name('ENTRY_STATUS_ADDED', Load())], Load()), "
+                 "[comprehension(Name('f', Store()), Name('data_files', Load()), [], 0)]), Add(), "
+                 "ListComp(Tuple([Name('f', Load()), Name('ENTRY_STATUS_EXISTING', Load())], Load()), "
+                 "[comprehension(Name('f', Store()), Name('existing_files', Load()), [], 0)]))")
+    if dump(loop.iter) != want_iter:
+        raise Unsupported(f"create_manifest_file: entry order changed: {dump(loop.iter)}")
+
+    def is_df_checksum(n: ast.AST) -> bool:
+        return dump(n) == "Attribute(Name('df', Load()), 'checksum', Load())"
+
+    field = None
+    for node in ast.walk(loop):
+        if isinstance(node, ast.Dict):
+            for k, v in zip(node.keys, node.values):
+                if isinstance(k, ast.Constant) and k.value == "checksum":
+                    field = v
+    if field is None:
+        raise Unsupported("create_manifest_file: no \"checksum\" field in the entry record")
+    if is_df_checksum(field):
+        return "c", "c"
+    if not isinstance(field, ast.Name):
+        raise Unsupported(f"create_manifest_file: checksum field is {dump(field)}")
+    branch = None
+    for st in loop.body:
+        if (isinstance(st, ast.If) and dump(st.test) == "Compare(Name('status', Load()), [Eq()], [Name('ENTRY_STATUS_ADDED', Load())])"):
+            branch = st
+    if branch is None:
+        raise Unsupported("create_manifest_file: `if status == ENTRY_STATUS_ADDED` not found")
+
+    def value_in(body: List[ast.stmt]) -> str:
+        val = None
+        for st in body:
+            tgt = st.targets[0] if isinstance(st, ast.Assign) and len(st.targets) == 1 else getattr(st, "target", None) if isinstance(st, ast.AnnAssign) else None
+            if isinstance(tgt, ast.Name) and tgt.id == field.id:
+                v = st.value
+                if v is not None and is_df_checksum(v):
+                    val = "c"
+                elif isinstance(v, ast.Constant) and v.value is None:
+                    val = "None"
+                else:
+                    raise Unsupported(f"create_manifest_file: {field.id} = {dump(v) if v is not None else '?'}")
+        if val is None:
+            raise Unsupported(f"create_manifest_file: {field.id} not assigned in a status branch")
+        return val
+    return value_in(branch.body), value_in(branch.orelse)
+
+
 def coq_list(xs: List[str]) -> str:
     return "[" + "; ".join(coq_str(x) for x in xs) + "]"
 
@@ -210,8 +270,9 @@ def gen_read(src: str) -> str:
     algo = default_of(find_function(integ, "verify_checksum", "IntegrityChecker"), "algorithm")
     tx = parse_module(src, "transaction.py")
     vdef = verify_default(find_function(tx, "_resolve_verify_checksums", "Table"))
+    ck_added, ck_existing = entry_checksum(find_function(fm, "create_manifest_file", "FileManager"))
     return f"""(* GENERATED by translator/gen_read.py from src/datashard/{{file_manager,integrity,transaction}}.py -- do not edit *)
-From Coq Require Import List String.
+From Coq Require Import NArith List String.
 Import ListNotations.
 Open Scope string_scope.
 
@@ -224,6 +285,11 @@ Definition json_reraises_as : string := {coq_str(lst_raise)}.
 Definition checksum_algorithm : string := {coq_str(str(algo))}.
 (* Table._resolve_verify_checksums(None) with the environment variable unset *)
 Definition verify_default_on : bool := {"true" if vdef else "false"}.
+(* FileManager.create_manifest_file: the "checksum" field written for an entry whose DataFile carries checksum c;
+   added = true for files this commit adds (status ADDED), false for files carried over by a manifest rewrite
+   (status EXISTING).  Entries are written in the order [ADDED...] ++ [EXISTING...]. *)
+Definition gen_entry_checksum (added : bool) (c : option N) : option N :=
+  if added then {ck_added} else {ck_existing}.
 (* number of read-path functions whose normalised AST equals the golden copy *)
 Definition pinned_functions : nat := {len(PINNED)}.
 """
